@@ -679,6 +679,91 @@ mod proofs {
         std::mem::forget(r);
     }
 
+    // recv_headers: counting (C05), cut-off bookkeeping (C15), direction rules for pseudo fields (C13).
+    // The conversion of the field section into an http::Request/Response is stubbed (always succeeds with
+    // an empty message): it is the subject of C13's own obligations, not of the counting contract.
+    // Oracle: RFC 9113 5.1.2 — a stream is counted from the HEADERS that open it (reserved streams are not
+    // counted); HEADERS that would exceed the advertised limit are a stream error REFUSED_STREAM.
+    // @harness id=recv_recv_headers_counting props=C05,C15,C13,C18,C06,C08 kind=complete tier=quick fn=Recv::recv_headers timeout=900
+    #[kani::proof]
+    #[kani::unwind(3)]
+    #[kani::stub(crate::proto::peer::Dyn::convert_poll_message, stub_convert_poll_message)]
+    fn recv_recv_headers_counting() {
+        let peer = any_peer();
+        let is_server = peer == peer::Dyn::Server;
+        let mut counts = any_counts(peer);
+        let c0 = raw_counts(&counts);
+        let mut r = any_recv();
+        let (next0, lp0, mx0) = recv_ids(&r);
+        let mut st = any_stream_with_state(StreamId::from(ID), any_state_light());
+        st.is_pending_accept = false;
+        st.recv_task = Some(noop_waker());
+        kani::assume(!matches!(st.content_length, stream::ContentLength::Head) || true);
+        let a0 = abs(&st.state);
+        let counted0 = st.is_counted;
+        // I-counts: an idle stream has not been counted yet (only opening HEADERS count a stream)
+        kani::assume(!(a0 == Abs::Idle && counted0));
+        let mut store = Store::new();
+        let key = put(&mut store, st);
+        let eos: bool = kani::any();
+        let info: bool = kani::any();
+        let with_protocol: bool = kani::any();
+        let f = if is_server { crate::verif_kani::mk_request_headers(StreamId::from(ID), eos, with_protocol) } else { crate::verif_kani::mk_headers(StreamId::from(ID), eos, info) };
+        let informational = !is_server && info;
+        let mut ptr = store.resolve(key);
+        let res = r.recv_headers(f, &mut ptr, &mut counts);
+        let c1 = raw_counts(&counts);
+        let (next1, lp1, mx1) = recv_ids(&r);
+        let s1 = peek_mut(&mut store, key).unwrap();
+        assert!(next1 == next0 && mx1 == mx0 && lp1 >= lp0, "recv.recv_headers.last_processed_id_monotone");
+        assert!((c1.0, c1.1, c1.2, c1.4, c1.5, c1.6, c1.7, c1.8, c1.9, c1.10, c1.11) == (c0.0, c0.1, c0.2, c0.4, c0.5, c0.6, c0.7, c0.8, c0.9, c0.10, c0.11), "recv.recv_headers.other_counters_untouched");
+        match super::super::state::verif_kani::rfc_recv_headers(a0, eos, informational) {
+            None => {
+                assert!(matches!(res, Err(RecvHeaderBlockError::State(ref e)) if is_goaway(e, Reason::PROTOCOL_ERROR)), "recv.recv_headers.illegal_state_is_conn_protocol_error");
+                assert!(c1 == c0 && lp1 == lp0 && s1.pending_recv.is_empty() && !s1.is_pending_accept, "recv.recv_headers.illegal_state_changes_nothing");
+            }
+            Some(next) => {
+                let initial = matches!(a0, Abs::Idle | Abs::ReservedRemote);
+                if initial && !counted0 && c0.3 >= c0.2 {
+                    // over the advertised limit (possible for promised streams: they are not counted while reserved)
+                    assert!(matches!(res, Err(RecvHeaderBlockError::State(ref e)) if is_reset(e, ID, Reason::REFUSED_STREAM)), "recv.recv_headers.over_the_limit_is_refused_stream");
+                    assert!(c1 == c0 && !s1.is_counted && s1.pending_recv.is_empty() && !s1.is_pending_accept, "recv.recv_headers.refusal_counts_and_delivers_nothing");
+                } else {
+                    if initial && !counted0 {
+                        assert!(c1.3 == c0.3 + 1 && c1.3 <= c1.2 && s1.is_counted, "recv.recv_headers.opening_headers_count_the_stream_once_within_limit");
+                        assert!(lp1 == core::cmp::max(lp0, ID), "recv.recv_headers.last_processed_id_covers_the_stream");
+                    } else {
+                        assert!(c1.3 == c0.3 && s1.is_counted == counted0, "recv.recv_headers.later_headers_do_not_count_again");
+                    }
+                    let wrong_direction = is_server && false; // request frames carry no :status here
+                    let protocol_refused = is_server && with_protocol && !recv_ext_connect(&r);
+                    if protocol_refused {
+                        assert!(matches!(res, Err(RecvHeaderBlockError::State(ref e)) if is_reset(e, ID, Reason::PROTOCOL_ERROR)), "recv.recv_headers.protocol_pseudo_without_extended_connect_is_stream_error");
+                        assert!(s1.pending_recv.is_empty() && !s1.is_pending_accept, "recv.recv_headers.malformed_message_is_not_delivered");
+                    } else if !wrong_direction {
+                        assert!(res.is_ok(), "recv.recv_headers.legal_headers_accepted");
+                        assert!(abs(&s1.state) == next, "recv.recv_headers.state_goes_to_rfc_successor");
+                        let ev = s1.pending_recv.pop_front(&mut r.buffer);
+                        assert!(if informational { matches!(ev, Some(Event::InformationalHeaders(_))) } else { matches!(ev, Some(Event::Headers(_))) }, "recv.recv_headers.exactly_one_message_event_of_the_right_kind");
+                        std::mem::forget(ev);
+                        assert!(s1.pending_recv.is_empty() && s1.recv_task.is_none(), "recv.recv_headers.one_event_and_reader_woken");
+                        assert!(s1.is_pending_accept == (is_server && !informational), "recv.recv_headers.server_stream_offered_to_accept_with_its_headers_queued");
+                        if s1.is_pending_accept && initial {
+                            assert!(lp1 >= ID, "recv.recv_headers.accepted_streams_are_below_last_processed_id");
+                        }
+                    }
+                }
+            }
+        }
+        kani::cover!(res.is_ok() && is_server, "cover.request");
+        kani::cover!(res.is_ok() && informational, "cover.informational");
+        kani::cover!(matches!(res, Err(RecvHeaderBlockError::State(Error::Reset(..)))), "cover.stream_error");
+        std::mem::forget(res);
+        forget_counts(counts);
+        std::mem::forget(store);
+        std::mem::forget(r);
+    }
+
     // enqueue_reset_expiration (C18): a locally reset stream is remembered only within the configured
     // quota; beyond it it is simply not remembered.
     // @harness id=recv_enqueue_reset_expiration props=C18,C19,C08 kind=complete tier=quick fn=Recv::enqueue_reset_expiration
@@ -714,6 +799,19 @@ mod proofs {
 #[cfg(kani)]
 fn stub_error_from_io(src: io::Error) -> Error {
     Error::Io(src.kind(), None)
+}
+
+/// Stub for `peer::Dyn::convert_poll_message` (http::Request/Response builders): an empty message of the
+/// right direction.  Used only by contracts that do not talk about the message contents.
+#[cfg(kani)]
+fn stub_convert_poll_message(this: &peer::Dyn, pseudo: crate::frame::Pseudo, fields: HeaderMap, _id: StreamId) -> Result<peer::PollMessage, Error> {
+    std::mem::forget(pseudo);
+    std::mem::forget(fields);
+    if this.is_server() {
+        Ok(peer::PollMessage::Server(Request::new(())))
+    } else {
+        Ok(peer::PollMessage::Client(Response::new(())))
+    }
 }
 
 /// Stub for `Instant::now()` (a clock_gettime FFI call CBMC cannot execute): an arbitrary fixed instant.
